@@ -8,6 +8,7 @@ package pongo2
 
 import (
 	"io"
+	"os"
 	"sort"
 	"strings"
 )
@@ -47,20 +48,34 @@ func c11Set(l []string) map[string]bool {
 }
 
 func HarnessC11() {
+	// root of the virtual tree. Native demonstration for an environment-monitor finding (canary=1): the
+	// tree is rooted in a real temporary directory and every name that no loader serves exists there as
+	// a real file - if its content or a success shows up, the loaders were bypassed.
+	root := "/t"
+	canary := verifParam("canary", 0) == 1
+	if canary {
+		d, err := os.MkdirTemp("", "verifc11")
+		if err != nil {
+			return
+		}
+		defer os.RemoveAll(d)
+		root = d + "/t"
+		os.MkdirAll(root+"/sub", 0o755)
+	}
 	// symbolic markers identify which file's content was rendered
 	mA, mB, mBase, mLib, mX, mX2, mRaw := c11Letter(), c11Letter(), c11Letter(), c11Letter(), c11Letter(), c11Letter(), c11Letter()
 	l1 := &c11Loader{LocalFilesystemLoader: &LocalFilesystemLoader{}, files: map[string]string{
-		"/t/sub/a.tpl": mA + "{{ v }}{% include \"b.tpl\" %}{% include \"../base.tpl\" %}",
-		"/t/sub/b.tpl": mB + "[{{ v }}{{ w }}]",
-		"/t/sub/p.tpl": "({{ v }}{{ w }}{{ p }}{{ q }}{{ i }}{{ forloop.Counter }})",
-		"/t/base.tpl":  mBase + "{% block k %}K{% endblock %}",
-		"/t/lib.tpl":   "{% macro m(p) export %}" + mLib + "{{ p }}{% endmacro %}",
-		"/t/raw.txt":   mRaw + "{{ not parsed }}",
-		"/t/x.tpl":     mX,
-		"/t/y.tpl":     "y" + mX,
+		root+"/sub/a.tpl": mA + "{{ v }}{% include \"b.tpl\" %}{% include \"../base.tpl\" %}",
+		root+"/sub/b.tpl": mB + "[{{ v }}{{ w }}]",
+		root+"/sub/p.tpl": "({{ v }}{{ w }}{{ p }}{{ q }}{{ i }}{{ forloop.Counter }})",
+		root+"/base.tpl":  mBase + "{% block k %}K{% endblock %}",
+		root+"/lib.tpl":   "{% macro m(p) export %}" + mLib + "{{ p }}{% endmacro %}",
+		root+"/raw.txt":   mRaw + "{{ not parsed }}",
+		root+"/x.tpl":     mX,
+		root+"/y.tpl":     "y" + mX,
 	}}
 	l2 := &c11Loader{LocalFilesystemLoader: &LocalFilesystemLoader{}, files: map[string]string{
-		"/t/x.tpl":    mX2, // also in loader 1: loader 1 wins
+		root+"/x.tpl":    mX2, // also in loader 1: loader 1 wins
 		"/u/only2.tpl": "2" + mX2,
 	}}
 	set := NewSet("verif", l1, l2)
@@ -72,7 +87,7 @@ func HarnessC11() {
 	sel := verifByte()
 	verifAssume(sel >= 'x')
 	verifAssume(sel <= 'y')
-	rooted := "/t/" + string([]byte{sel}) + ".tpl"
+	rooted := root+"/" + string([]byte{sel}) + ".tpl"
 	V, W := c11Letter(), c11Letter()
 	ctx := Context{"v": V, "w": W, "rooted": rooted, "rel": "sub/b.tpl"}
 	wantErr, execErr := false, false
@@ -80,11 +95,11 @@ func HarnessC11() {
 	case 0: // relative include; the included file includes relative to ITSELF and via ..
 		src = "{% include \"sub/a.tpl\" %}"
 		want = mA + V + mB + "[" + V + W + "]" + mBase + "K"
-		fetched = []string{"/t/sub/a.tpl", "/t/sub/b.tpl", "/t/base.tpl"}
+		fetched = []string{root+"/sub/a.tpl", root+"/sub/b.tpl", root+"/base.tpl"}
 	case 1: // rooted literal name
-		src = "{% include \"/t/x.tpl\" %}"
+		src = "{% include \"" + root + "/x.tpl\" %}"
 		want = mX
-		fetched = []string{"/t/x.tpl"}
+		fetched = []string{root+"/x.tpl"}
 	case 2: // rooted name computed at run time renders the same as the literal
 		src = "{% include rooted %}"
 		want = mX
@@ -95,39 +110,39 @@ func HarnessC11() {
 	case 3: // relative name computed at run time
 		src = "{% include rel with w=\"Q\" %}"
 		want = mB + "[" + V + "Q]"
-		fetched = []string{"/t/sub/b.tpl"}
+		fetched = []string{root+"/sub/b.tpl"}
 	case 4: // with ... only: the included template sees only the pairs
 		src = "{% include \"sub/b.tpl\" with w=\"Q\" only %}"
 		want = mB + "[Q]"
-		fetched = []string{"/t/sub/b.tpl"}
+		fetched = []string{root+"/sub/b.tpl"}
 	case 14: // only: names bound by set / with / for in the includer are not handed down either
 		src = "{% set p = v %}{% with q=v %}{% for i in l %}{% include \"sub/p.tpl\" with w=\"Q\" only %}{% include \"sub/p.tpl\" with w=\"R\" %}{% endfor %}{% endwith %}"
 		ctx["l"] = []string{"1"}
 		want = "(Q)(" + V + "R" + V + V + "11)"
-		fetched = []string{"/t/sub/p.tpl"}
+		fetched = []string{root+"/sub/p.tpl"}
 	case 15: // a child in a sub-directory extends a parent elsewhere: its relative include is relative to the CHILD
-		l1.files["/t/sub/child.tpl"] = "{% extends \"../base.tpl\" %}{% block k %}{% include \"b.tpl\" %}{% import \"../lib.tpl\" m %}{{ m(v) }}{% endblock %}"
+		l1.files[root+"/sub/child.tpl"] = "{% extends \"../base.tpl\" %}{% block k %}{% include \"b.tpl\" %}{% import \"../lib.tpl\" m %}{{ m(v) }}{% endblock %}"
 		src = "{% include \"sub/child.tpl\" %}"
 		want = mBase + mB + "[" + V + W + "]" + mLib + V
-		fetched = []string{"/t/sub/child.tpl", "/t/base.tpl", "/t/sub/b.tpl", "/t/lib.tpl"}
+		fetched = []string{root+"/sub/child.tpl", root+"/base.tpl", root+"/sub/b.tpl", root+"/lib.tpl"}
 	case 16: // the same child rendered directly (it is the template being executed)
-		l1.files["/t/sub/child.tpl"] = "{% extends \"../base.tpl\" %}{% block k %}{% ssi \"b.tpl\" parsed %}{% endblock %}"
+		l1.files[root+"/sub/child.tpl"] = "{% extends \"../base.tpl\" %}{% block k %}{% ssi \"b.tpl\" parsed %}{% endblock %}"
 		src = "{% extends \"sub/child.tpl\" %}"
 		want = mBase + mB + "[" + V + W + "]"
-		fetched = []string{"/t/sub/child.tpl", "/t/base.tpl", "/t/sub/b.tpl"}
+		fetched = []string{root+"/sub/child.tpl", root+"/base.tpl", root+"/sub/b.tpl"}
 	case 5: // missing name is an error
 		src = "{% include \"nope.tpl\" %}"
 		wantErr = true
-		fetched = []string{"/t/nope.tpl"}
+		fetched = []string{root+"/nope.tpl"}
 	case 6: // ... or nothing with if_exists
 		src = "a{% include \"nope.tpl\" if_exists %}b"
 		want = "ab"
-		fetched = []string{"/t/nope.tpl"}
+		fetched = []string{root+"/nope.tpl"}
 	case 7: // lazy missing: execution error / nothing with if_exists
 		src = "a{% include missing if_exists %}b{% include missing %}"
 		ctx["missing"] = "nope.tpl"
 		execErr = true
-		fetched = []string{"/t/nope.tpl"}
+		fetched = []string{root+"/nope.tpl"}
 	case 8: // only the second loader has it
 		src = "{% include \"/u/only2.tpl\" %}"
 		want = "2" + mX2
@@ -135,64 +150,73 @@ func HarnessC11() {
 	case 9: // extends
 		src = "{% extends \"base.tpl\" %}{% block k %}C{% endblock %}"
 		want = mBase + "C"
-		fetched = []string{"/t/base.tpl"}
+		fetched = []string{root+"/base.tpl"}
 	case 10: // import
 		src = "{% import \"lib.tpl\" m %}{{ m(v) }}"
 		want = mLib + V
-		fetched = []string{"/t/lib.tpl"}
+		fetched = []string{root+"/lib.tpl"}
 	case 11: // ssi parsed
 		src = "{% ssi \"sub/b.tpl\" parsed %}"
 		want = mB + "[" + V + W + "]"
-		fetched = []string{"/t/sub/b.tpl"}
+		fetched = []string{root+"/sub/b.tpl"}
 	case 12: // ssi plain: the file's bytes, not interpreted - still through the loaders
 		if verifKnown("C11-ssi-plain-os") {
 			verifAssume(false)
 		}
 		src = "{% ssi \"raw.txt\" %}"
 		want = mRaw + "{{ not parsed }}"
-		fetched = []string{"/t/raw.txt"}
+		fetched = []string{root+"/raw.txt"}
 	case 17: // a missing name is an error for every composing tag
 		src = "{% extends \"nope.tpl\" %}"
 		wantErr = true
-		fetched = []string{"/t/nope.tpl"}
+		fetched = []string{root+"/nope.tpl"}
 	case 18:
 		src = "{% import \"nope.tpl\" m %}"
 		wantErr = true
-		fetched = []string{"/t/nope.tpl"}
+		fetched = []string{root+"/nope.tpl"}
 	case 19:
 		src = "{% ssi \"nope.tpl\" parsed %}"
 		wantErr = true
-		fetched = []string{"/t/nope.tpl"}
+		fetched = []string{root+"/nope.tpl"}
 	case 20: // (a plain ssi must not fall back to the real file system when no loader has the name)
 		src = "{% ssi \"nope.txt\" %}"
 		wantErr = true
-		fetched = []string{"/t/nope.txt"}
+		fetched = []string{root+"/nope.txt"}
 	case 21: // if_exists is about the file it names: a missing name INSIDE an existing file is still an error
-		l1.files["/t/has.tpl"] = "[" + mA + "{% include \"nope.tpl\" %}]"
+		l1.files[root+"/has.tpl"] = "[" + mA + "{% include \"nope.tpl\" %}]"
 		src = "A{% include \"has.tpl\" if_exists %}B"
 		wantErr = true
-		fetched = []string{"/t/has.tpl", "/t/nope.tpl"}
+		fetched = []string{root+"/has.tpl", root+"/nope.tpl"}
 	case 22: // the same at execution time
-		l1.files["/t/has.tpl"] = "[" + mA + "{% include \"nope.tpl\" %}]"
+		l1.files[root+"/has.tpl"] = "[" + mA + "{% include \"nope.tpl\" %}]"
 		src = "A{% include has if_exists %}B"
 		ctx["has"] = "has.tpl"
 		execErr = true
-		fetched = []string{"/t/has.tpl", "/t/nope.tpl"}
+		fetched = []string{root+"/has.tpl", root+"/nope.tpl"}
 	case 23: // a computed relative name inside a child's block is relative to the CHILD, like a literal one
-		l1.files["/t/sub/child.tpl"] = "{% extends \"../base.tpl\" %}{% block k %}{% include relb %}|{% include \"b.tpl\" %}{% endblock %}"
-		l1.files["/t/b.tpl"] = "WRONG"
+		l1.files[root+"/sub/child.tpl"] = "{% extends \"../base.tpl\" %}{% block k %}{% include relb %}|{% include \"b.tpl\" %}{% endblock %}"
+		l1.files[root+"/b.tpl"] = "WRONG"
 		ctx["relb"] = "b.tpl"
 		src = "{% include \"sub/child.tpl\" %}"
 		want = mBase + mB + "[" + V + W + "]|" + mB + "[" + V + W + "]"
-		fetched = []string{"/t/sub/child.tpl", "/t/base.tpl", "/t/sub/b.tpl"}
+		fetched = []string{root+"/sub/child.tpl", root+"/base.tpl", root+"/sub/b.tpl"}
 	default: // nothing referenced: nothing fetched
 		src = "{{ v }}{# {% include \"sub/a.tpl\" %} #}{% comment %}{% include \"x.tpl\" %}{% endcomment %}"
 		want = V
 	}
-	l1.files["/t/main.tpl"] = src
+	l1.files[root+"/main.tpl"] = src
+	if canary {
+		for _, name := range fetched {
+			_, in1 := l1.files[name]
+			_, in2 := l2.files[name]
+			if !in1 && !in2 {
+				os.WriteFile(name, []byte("CANARY"), 0o644)
+			}
+		}
+	}
 	verifEpoch()
-	tpl, err := set.FromFile("/t/main.tpl")
-	fetched = append(fetched, "/t/main.tpl")
+	tpl, err := set.FromFile(root+"/main.tpl")
+	fetched = append(fetched, root+"/main.tpl")
 	if wantErr {
 		verifAssert(err != nil, "a missing name must be a compile error")
 	} else {
